@@ -165,21 +165,43 @@ inductive Shape
   | stray (op : TOp)
   deriving DecidableEq, Repr, Inhabited
 
-/-- Splits a trace into protocol steps. Files under construction (`open`) are the created
-paths that have not been renamed yet; operations on different files may interleave. A created
-file that is renamed is a `replace`; one that is not is a `rewrite`; `unlink` of a file that
-is not under construction is a `remove`; a `write` to a file that was not created in the
-trace, or a `rename` of one, is a stray operation. -/
+/-- Splits a trace into protocol steps, in the order in which the steps end. Files under
+construction (`opened`) are the created paths that have not been renamed away yet; operations
+on different files may interleave. A created file that is renamed is a `replace`; a created
+file that is not renamed is a `rewrite`, which ends when the file is created (truncated)
+again, when another file is renamed over it, or with the trace; `unlink` of a file that is
+not under construction is a `remove`; a `write` to a file that was not created in the trace,
+or a `rename` of one, is a stray operation. -/
 def recognise : List TOp → List Path → List Shape
   | [], opened => opened.reverse.map .rewrite
-  | .create p :: rest, opened => recognise rest (if opened.contains p then opened else p :: opened)
+  | .create p :: rest, opened =>
+    if opened.contains p then .rewrite p :: recognise rest opened
+    else recognise rest (p :: opened)
   | .write p n :: rest, opened =>
     if opened.contains p then recognise rest opened else .stray (.write p n) :: recognise rest opened
   | .rename p q :: rest, opened =>
-    if opened.contains p then .replace p q :: recognise rest (opened.filter (· != p))
+    if opened.contains p then
+      (if opened.contains q then [.rewrite q] else []) ++
+        .replace p q :: recognise rest (opened.filter (fun x => x != p && x != q))
     else .stray (.rename p q) :: recognise rest opened
   | .unlink p :: rest, opened =>
     if opened.contains p then .stray (.unlink p) :: recognise rest (opened.filter (· != p))
     else .remove p :: recognise rest opened
+
+/-- The path a protocol step leaves its data in. -/
+def Shape.target : Shape → Option Path
+  | .replace _ p => some p
+  | .rewrite p => some p
+  | .remove p => some p
+  | .stray _ => none
+
+/-- Protocol deviations: paths (of those in `versions`, the files that hold a complete stored
+version after the run) whose last step is a `rewrite` — a version written in place instead of
+through a temporary file. -/
+def inPlaceVersions (shapes : List Shape) (versions : List Path) : List Path :=
+  versions.filter fun p =>
+    match (shapes.filter (fun s => s.target == some p)).getLast? with
+    | some (.rewrite _) => true
+    | _ => false
 
 end RoutinatorModel.FsCrash
